@@ -171,7 +171,7 @@ def run(c) -> CaseResult:
 
 CHECK = Check(
     id="C09",
-    parts=[Part("histories", run, strategy=cases, budget={"quick": 1500, "thorough": 30000})],
+    parts=[Part("histories", run, strategy=cases, budget={"quick": 4000, "thorough": 250000})],
     rule=("Hypothesis: histories of length 0-4 over {deepcopy(param), pickle(param), torch.save/load(param), requires_grad toggle, "
           "deepcopy(module), pickle(module), torch.save/load(module), module.to(float64), module.half(), module.float(), load_state_dict, "
           "simulate_fp8 / track_scales / unit_scale (deepcopy inside)} x 4 tags x depth in {None,1,7} x holder {Linear, Conv1d}; a model "
